@@ -10,7 +10,7 @@ SRC=$WT/SEEDED/$M
 DEMO=$(ls $SRC/*_test.go 2>/dev/null | head -1)
 [ -n "$DEMO" ] || { echo "no demo test in $SRC"; exit 2; }
 PKG=$(grep -m1 '^package ' $DEMO | awk '{print $2}' | sed 's/_test$//')
-case $PKG in builtInFunctions|parsers|container|atomic|check|data|txDataBuilder) DIR=$PKG;; vmcommon) DIR=.;; *) DIR=builtInFunctions;; esac
+case $PKG in builtInFunctions|parsers|container|atomic|check|data|txDataBuilder) DIR=$PKG;; esdt) DIR=data/esdt;; vmcommon) DIR=.;; *) DIR=builtInFunctions;; esac
 V=/tmp/vet-$ID; rm -rf $V; git -C /repo worktree add -q --detach $V HEAD || exit 2
 trap "git -C /repo worktree remove --force $V" EXIT
 cd $V
@@ -38,5 +38,5 @@ json.dump({"id":id_,"breaks_property":prop,"demo_package_dir":d,
 PY
   echo "$ID CONFIRMED"
 else
-  echo "$ID NOT CONFIRMED"; tail -5 /tmp/vet-$ID.without /tmp/vet-$ID.suite /tmp/vet-$ID.with
+  echo "$ID NOT CONFIRMED"; for f in /tmp/vet-$ID.without /tmp/vet-$ID.suite /tmp/vet-$ID.with; do echo "--- $f"; tail -n 5 $f; done
 fi
